@@ -80,8 +80,8 @@ CHECKS.update({
  "C16": dict(level="proof", tech="Lean 4 structural induction over type shapes for every complete CollectTable + recording-tracer differential", engine="tables+collect",
    text="Proof: `exact` — for every complete table, every type shape and well-typed value, the provided trace reports exactly the contained pointers (strong as strong, weak as weak) in every parameter / element position and size, and NEEDS_TRACE = false implies no pointers; `table_complete` by `decide +kernel` on the 77-entry table regenerated from the macro-expanded crate each run; `needs_trace_mono`. Tie 2: harness_collect builds every provided container with distinct pointers in every position x size and records what Trace::trace reports (1029 cases quick, all features; per-feature builds in thorough), plus end-to-end survival runs.",
    ref="DESIGN §6 C16", note=TT + "; std / third-party iterators are trusted to visit every element"),
- "C19": dict(level="proof", tech="Lean 4 signature-table theorem (no safe fn conjures a Gc<T>) over a SigTable regenerated from source + rustc probes; conversions: layout harness",
-   text="Static half (partial, rustc + parametricity trusted): `no_conjure` by `decide` over the table of every safe public fn / macro whose result contains Gc<T>/GcWeak<T>, regenerated from /repo each run; `pinned_conjure_witness` (the pre-fix alloc_zst signature is rejected: defect D3, fixed). Conjuring probes (Gc<Void>, private-constructor ZST) must not compile. Dynamic half (identity of as_thin/as_fat/as_ptr/from_ptr round trips) is exercised by the C17 layout harness; erase/unsize/ZstCache chains in the collector harness are still to be added.",
+ "C19": dict(level="proof", tech="Lean 4: conversion-chain model (identity by induction over chains, metadata exactness, collector corollaries from inv_run / linv_run, ZstCache rule) + differential conversion harness; signature-table theorem (no conjuring) over a SigTable regenerated from source + rustc probes",
+   text="Dynamic half — proof: `same_object` / `from_alloc` (every well-typed chain of erase, erase_kind, cast, as_thin / as_fat, as_ptr / from_ptr, unsize!, downgrade / upgrade, stash-fetch, of any length, yields the same object and address), `fails_iff_dead_upgrade`, `upgrade_rule_is_collectors`, `metadata_exact` / `length_exact` / thin-fat round trips, `collector_view` + `converted_keeps_alive` / `converted_weak_block_stays` / `destructed_once` (corollaries of inv_run / linv_run: keeping the converted pointer keeps the value; destructed and released once), ZstCache: `zst_shared_iff`, `zst_alloc`, `zst_shared_alias`, `zst_value_destructed_once`, `zst_cached_ptr_aligned` (from C17's layout theorems). Tie: harness_conv executes every well-typed chain up to length 4 (random longer ones in thorough) over sized / array / slice / str / dyn / ZST targets x placement x schedule x phase x age against the real crate with ptr_eq, payload, survival, once-as-original-type and allocator monitors, compares with the model driver; ZstCache grid; rustc typing probes; Miri subset in thorough. Static half (partial, rustc + parametricity trusted): `no_conjure` by `decide` over the table of every safe public fn / macro whose result contains Gc<T>/GcWeak<T>, regenerated from /repo each run; `pinned_conjure_witness` (defect D3, fixed).",
    ref="DESIGN §6 C19, §7", engine="tables", note=TT),
 })
 
@@ -117,6 +117,8 @@ def main():
              "kind_free_text": "Lean model of derive(Collect); generated-shape differential; rustc rejection probes"},
             {"name": "tables", "path": "extract/ probes/ lib/eng_tables.py lean/GcArena/Generated/ lean/GcArena/Model/{WriteCap,Conjure,CollectTy,CallGraphM}.lean", "serves_properties": ["C13", "C16", "C19", "C03", "C20"],
              "kind_free_text": "syn translator over raw + macro-expanded source -> Lean tables; table theorems; rustc probes"},
+            {"name": "conv", "path": "harness_conv/ lib/eng_conv.py lean/GcArena/Model/Conv.lean lean/ConvMain.lean", "serves_properties": ["C19"],
+             "kind_free_text": "conversion-chain differential harness (tracking allocator, destructor log) + Lean conversion model driver"},
             {"name": "dynroots", "path": "harness_dynroots/ lib/eng_dynroots.py lean/GcArena/Model/DynRoots.lean lean/DynMain.lean", "serves_properties": ["C14", "C20"],
              "kind_free_text": "DynamicRootSet correspondence harness (slot-table hook, drop tokens) + Lean slot-table model driver"},
             {"name": "brand", "path": "extract_brand/ probes_brand/ lib/eng_brand.py lean/GcArena/Model/Brand.lean", "serves_properties": ["C12"],
